@@ -101,8 +101,12 @@ def coll(prop, hq, ht, need, level="exploration", extra=(), extra_quick=(), extr
 PLANS["C06"] = coll("C06", 12, 300, ["panic_injected", "panic_injected_in_drop", "drain_partial", "drain_forgotten", "drain_keep_rest", "retain", "dedup", "extract_if_partial", "finalised"],
                     level="fault_enumeration", extra=["--max-enum", "60"], miri_h=1, miri_extra=["--max-enum", "8"])
 _c07a = arena("C07", 25, 600, level="fault_enumeration")
-PLANS["C07"] = coll("C07", 150, 4000, ["alloc_refused", "fixed_full_rejected", "base_refused", "mut_grew_other_chunk", "commit_mut", "panicking_method_panicked_on_refusal", "typed_err_refused"],
-                    level="fault_enumeration", miri_h=1, extra_quick=_c07a["quick"], extra_thorough=_c07a["thorough"][:5])
+# every entry point (inherent forwarders, trait impls, wrappers, trait objects) against a base allocator that starts refusing mid-history
+_c07l_quick = [("dbg", "lockstep", ["--refuse"], 8, ["--histories", "200"]), ("rel", "lockstep", ["--refuse"], 8, ["--histories", "600"]), ("miri", "lockstep", ["--refuse", "--ops", "40"], 4, ["--histories", "2"])]
+_c07l_thorough = [("dbg", "lockstep", ["--refuse"], 16, ["--histories", "4000"]), ("rel", "lockstep", ["--refuse", "--ops", "300"], 16, ["--histories", "8000"]), ("asan", "lockstep", ["--refuse"], 16, ["--histories", "2000"])]
+PLANS["C07"] = coll("C07", 150, 4000, ["alloc_refused", "fixed_full_rejected", "base_refused", "mut_grew_other_chunk", "commit_mut", "panicking_method_panicked_on_refusal", "typed_err_refused",
+                                       "refusal_reported_as_error", "refusal_reported_by_unwinding", "state:base_refuses_everything"],
+                    level="fault_enumeration", miri_h=1, extra_quick=[*_c07a["quick"], *_c07l_quick], extra_thorough=[*_c07a["thorough"][:5], *_c07l_thorough])
 PLANS["C08"] = coll("C08", 400, 10000, ["grew", "grew_realloc", "panic_matched_model", "zst_capacity", "fixed_full_rejected", "conversion", "drain_partial", "retain", "dedup",
                                          "append_src:owned_slice::IntoIter", "append_src:owned_slice::Drain", "append_src:MutBumpVecRev", "append_src:&mut BumpVec", "ctor:3", "ctor:4", "ctor:5", "ctor:6", "dedup_by_non_equivalence"])
 PLANS["C09"] = coll("C09", 400, 10000, ["nonboundary_index", "invalid_utf8_input", "lossy_replaced", "str_panic_matched", "cstr", "split", "panic_injected"])
